@@ -16,6 +16,9 @@ let dec (tok : string) : z list =
     go (n - 1) []
   end
 
+(* "~" is a NULL pointer (str.c functions only) *)
+let deco (tok : string) : z list option = if tok = "~" then None else Some (dec tok)
+
 let enc (l : z list) : string =
   if l = [] then "-"
   else String.concat "" (List.map (fun c -> Printf.sprintf "%02x" (int_of_z c land 255)) l)
@@ -32,6 +35,18 @@ let report ((rc, m) : z * buf) : unit =
 
 let b01 b = if b then 1 else 0
 
+(* the extracted join, memoised: abspath_with calls it with the same (cwd, path, MAX_PATH, junk) for every output
+   size of a case; the result is a pure function of the arguments, the table only saves recomputing it *)
+let join_memo : (z list * z list * z * buf, z * buf) Hashtbl.t = Hashtbl.create 64
+let memo_join (p1 : z list) (p2 : z list) (size : z) (m : buf) : z * buf =
+  let key = (p1, p2, size, m) in
+  match Hashtbl.find_opt join_memo key with
+  | Some r -> r
+  | None ->
+    if Hashtbl.length join_memo > 256 then Hashtbl.reset join_memo;
+    let r = join p1 p2 size m in
+    Hashtbl.add join_memo key r; r
+
 let handle (lines : string list) : unit =
   List.iter (fun l ->
     match words l with
@@ -46,29 +61,58 @@ let handle (lines : string list) : unit =
     | ["swapw32"; v] ->
       let x = n_of_string v in
       Printf.printf "%s %s\n" (string_of_n (swap32 x)) (string_of_n (swap32 (swap32 x)))
+    | ["swapt"; n; ty; v] ->
+      (* the operand is an object of type ty holding (ty)v; the macro's value in the four contexts *)
+      let bits, sg = (match ty with
+          | "i8" -> 8, true | "u8" -> 8, false | "i16" -> 16, true | "u16" -> 16, false
+          | "i32" -> 32, true | "u32" -> 32, false | "i64" -> 64, true | _ -> 64, false) in
+      let x = operand (n_of_int bits) sg (n_of_string v) in
+      let sw = (match n with "16" -> swap16 | "32" -> swap32 | _ -> swap64) in
+      let r = sw x in
+      Printf.printf "%s %s %s %s\n" (string_of_n r) (string_of_z (as_int64 r)) (string_of_n r) (string_of_n (sw r))
     | ["swap32"; v] -> print_endline (string_of_n (swap32 (n_of_string v)))
     | ["swap64"; v] -> print_endline (string_of_n (swap64 (n_of_string v)))
-    | [("toi" | "tou" | "tol" | "toul" | "toll" | "toull") as op; base; s] ->
-      let b = z_of_string base and s = dec s in
-      let r = (match op with
-          | "toi" -> toi b s | "tou" -> tou b s | "tol" -> tol b s
-          | "toul" -> toul b s | "toll" -> toll b s | _ -> toull b s) in
-      (match r with Some v -> print_endline ("ok " ^ string_of_z v) | None -> print_endline "fail");
-      let ((v, e), er) = (match op with
-          | "toi" | "tol" | "toll" -> strtol_model b s
-          | _ -> strtoul_model b s) in
-      Printf.printf "libc %s %d %d\n" (string_of_z v) (int_of_nat e) (b01 er)
+    | (("toi" | "tou" | "tol" | "toul" | "toll" | "toull") as op) :: base :: s :: rest
+      when rest = [] || rest = ["P0"] ->
+      let b = z_of_string base and so = deco s and p0 = (rest = ["P0"]) in
+      let f = (match op with
+          | "toi" -> toi b | "tou" -> tou b | "tol" -> tol b
+          | "toul" -> toul b | "toll" -> toll b | _ -> toull b) in
+      (match so with
+       | Some s when not p0 ->
+         (match parse_c f so p0 with Some v -> print_endline ("ok " ^ string_of_z v) | None -> print_endline "fail");
+         let ((v, e), er) = (match op with
+             | "toi" | "tol" | "toll" -> strtol_model b s
+             | _ -> strtoul_model b s) in
+         Printf.printf "libc %s %d %d\n" (string_of_z v) (int_of_nat e) (b01 er)
+       | _ ->
+         (match parse_c f so p0 with Some _ -> print_endline "ok ?" | None -> print_endline "fail");
+         print_endline "libc -")
+    | ("tof" | "tod" | "told") :: s :: rest
+      when deco s = None || (rest <> [] && List.nth rest (List.length rest - 1) = "P0") ->
+      (* NULL string and/or NULL out-parameter: refused before libc is called *)
+      let p0 = rest <> [] && List.nth rest (List.length rest - 1) = "P0" in
+      (match parse_c (fun _ -> Some true) (deco s) p0 with
+       | Some _ -> print_endline "ok"
+       | None -> print_endline "fail");
+      print_endline "libcf -"
     | [("tof" | "tod" | "told"); s; consumed; inf; er] ->
+      (* old 4-column form (corpus): no zero column *)
       let s = dec s in
-      let ok = tofloat s (nat_of_int (int_of_string consumed)) (inf = "1") (er = "1") in
+      let ok = tofloat s (nat_of_int (int_of_string consumed)) (er = "1") in
       print_endline (if ok then "ok" else "fail");
       Printf.printf "libcf %s %s %s 1\n" consumed inf er
-    | ["lstrip"; s] -> print_endline (string_of_z (lstrip_idx (dec s)))
-    | ["rstrip"; s] -> print_endline (string_of_z (rstrip_idx (dec s)))
-    | ["startswith"; s; p] -> Printf.printf "%d\n" (b01 (startswith (dec s) (dec p)))
-    | ["endswith"; s; p] -> Printf.printf "%d\n" (b01 (endswith (dec s) (dec p)))
-    | ["find"; s; p; a; b] -> print_endline (string_of_z (str_find (dec s) (dec p) (z_of_string a) (z_of_string b)))
-    | ["count"; s; p; a; b] -> print_endline (string_of_z (str_count (dec s) (dec p) (z_of_string a) (z_of_string b)))
+    | [("tof" | "tod" | "told"); s; consumed; inf; er; zero] ->
+      let s = dec s in
+      let ok = tofloat s (nat_of_int (int_of_string consumed)) (er = "1") in
+      print_endline (if ok then "ok" else "fail");
+      Printf.printf "libcf %s %s %s %s 1\n" consumed inf er zero
+    | ["lstrip"; s] -> print_endline (string_of_z (lstrip_idx_c (deco s)))
+    | ["rstrip"; s] -> print_endline (string_of_z (rstrip_idx_c (deco s)))
+    | ["startswith"; s; p] -> Printf.printf "%d\n" (b01 (startswith_c (deco s) (deco p)))
+    | ["endswith"; s; p] -> Printf.printf "%d\n" (b01 (endswith_c (deco s) (deco p)))
+    | ["find"; s; p; a; b] -> print_endline (string_of_z (str_find_c (deco s) (deco p) (z_of_string a) (z_of_string b)))
+    | ["count"; s; p; a; b] -> print_endline (string_of_z (str_count_c (deco s) (deco p) (z_of_string a) (z_of_string b)))
     | ["hexbyte"; c] ->
       (* the C parameter is a (signed) char: values above 127 arrive negative *)
       let c = int_of_string c in
@@ -95,7 +139,7 @@ let handle (lines : string list) : unit =
       report (join (dec p1) (dec p2) (z_of_int sz) { cells = guard sz; oob = false })
     | ["abspath"; size; cwd; p] ->
       let sz = int_of_string size in
-      report (abspath (dec cwd) (dec p) (z_of_int sz) (guard 1024) { cells = guard sz; oob = false })
+      report (abspath_with memo_join (dec cwd) (dec p) (z_of_int sz) (guard 1024) { cells = guard sz; oob = false })
     | [] -> ()
     | _ -> print_endline "?") lines
 
